@@ -386,12 +386,13 @@ class _ImmutableTaskList:
         return self._list.__add__(_to_list(other))
 
     def __lshift__(self, other: Union['Task', Iterable['Task']]):
-        for t in self:
+        # Over a copy: linking a member of a dependency list re-orders that very list
+        for t in list(self._list):
             t.predecessors += other
         return other
 
     def __rshift__(self, other: Union['Task', Iterable['Task']]):
-        for t in self:
+        for t in list(self._list):
             t.successors += other
         return other
 
